@@ -1030,15 +1030,24 @@ class mulgrid(object):
                     for con in swapcons:
                         col.connection.remove(con)
                         col2.connection.add(con)
+                        # re-key the connection under its new column names:
+                        for key in [k for k, c in self.connection.items() if c is con]:
+                            del self.connection[key]
+                        self.connection[(con.column[0].name, con.column[1].name)] = con
                     for c in swapnbrs:
                         col.neighbour.remove(c)
                         c.neighbour.remove(col)
                         col2.neighbour.add(c)
                         c.neighbour.add(col2)
+                    n3.column.remove(col)
                     del col.node[i[3]]
                     col.centre = col.centroid
+                    col.get_area()
                     self.add_column(col2)
+                    self.set_column_num_layers(col2)
                     self.add_connection(connection([col, col2]))
+                    col.neighbour.add(col2)
+                    col2.neighbour.add(col)
                     self.setup_block_name_index()
                     self.setup_block_connection_name_index()
                     return True
